@@ -418,7 +418,9 @@ type c01Res struct {
 func rep(s string, n int) string { return strings.Repeat(s, n) }
 
 var c01Resource = []c01Res{
-	{"deep-parens", func() map[string]string { return map[string]string{"/main.tpl": "{{ " + rep("(", 2000) + "1" + rep(")", 2000) + " }}"} }, nil},
+	{"deep-parens", func() map[string]string {
+		return map[string]string{"/main.tpl": "{{ " + rep("(", 2000) + "1" + rep(")", 2000) + " }}"}
+	}, nil},
 	{"deep-unclosed-parens", func() map[string]string { return map[string]string{"/main.tpl": "{{ " + rep("(", 2000) + "1 }}"} }, nil},
 	{"deep-if-nesting", func() map[string]string {
 		return map[string]string{"/main.tpl": rep("{% if true %}", 1500) + "x" + rep("{% endif %}", 1500)}
@@ -426,13 +428,27 @@ var c01Resource = []c01Res{
 	{"deep-for-nesting", func() map[string]string {
 		return map[string]string{"/main.tpl": rep("{% for i in z_one %}", 500) + "{{ forloop.Parentloop.Parentloop.Counter }}" + rep("{% endfor %}", 500)}
 	}, pongo2.Context{"z_one": []int{1}}},
-	{"long-filter-chain", func() map[string]string { return map[string]string{"/main.tpl": "{{ \"a\"" + rep("|upper|lower", 1000) + " }}"} }, nil},
-	{"long-operator-chain", func() map[string]string { return map[string]string{"/main.tpl": "{{ 1" + rep(" + 1", 2000) + " }}{{ 2" + rep(" ^ 1", 2000) + " }}{{ 1" + rep(" == 1", 1500) + " }}{{ true" + rep(" and true", 2000) + " }}"} }, nil},
-	{"long-path", func() map[string]string { return map[string]string{"/main.tpl": "{{ z_struct" + rep(".Self", 2000) + ".Name }}{{ z_struct" + rep(".P", 2000) + " }}{{ z_ints" + rep("[0]", 1000) + " }}"} }, zooContext("")},
-	{"many-args", func() map[string]string { return map[string]string{"/main.tpl": "{{ f_variadic(" + rep("1, ", 3000) + "1) }}{{ f_values(" + rep("z_str, ", 1000) + "1) }}"} }, zooContext("")},
-	{"huge-array-literal", func() map[string]string { return map[string]string{"/main.tpl": "{{ [" + rep("1, ", 5000) + "1]|length }}"} }, nil},
-	{"nested-array-literal", func() map[string]string { return map[string]string{"/main.tpl": "{{ " + rep("[", 1500) + "1" + rep("]", 1500) + " }}"} }, nil},
-	{"macro-recursion-local", func() map[string]string { return map[string]string{"/main.tpl": "{% macro r(n) %}{{ n }}{{ r(n + 1) }}{% endmacro %}{{ r(1) }}"} }, nil},
+	{"long-filter-chain", func() map[string]string {
+		return map[string]string{"/main.tpl": "{{ \"a\"" + rep("|upper|lower", 1000) + " }}"}
+	}, nil},
+	{"long-operator-chain", func() map[string]string {
+		return map[string]string{"/main.tpl": "{{ 1" + rep(" + 1", 2000) + " }}{{ 2" + rep(" ^ 1", 2000) + " }}{{ 1" + rep(" == 1", 1500) + " }}{{ true" + rep(" and true", 2000) + " }}"}
+	}, nil},
+	{"long-path", func() map[string]string {
+		return map[string]string{"/main.tpl": "{{ z_struct" + rep(".Self", 2000) + ".Name }}{{ z_struct" + rep(".P", 2000) + " }}{{ z_ints" + rep("[0]", 1000) + " }}"}
+	}, zooContext("")},
+	{"many-args", func() map[string]string {
+		return map[string]string{"/main.tpl": "{{ f_variadic(" + rep("1, ", 3000) + "1) }}{{ f_values(" + rep("z_str, ", 1000) + "1) }}"}
+	}, zooContext("")},
+	{"huge-array-literal", func() map[string]string {
+		return map[string]string{"/main.tpl": "{{ [" + rep("1, ", 5000) + "1]|length }}"}
+	}, nil},
+	{"nested-array-literal", func() map[string]string {
+		return map[string]string{"/main.tpl": "{{ " + rep("[", 1500) + "1" + rep("]", 1500) + " }}"}
+	}, nil},
+	{"macro-recursion-local", func() map[string]string {
+		return map[string]string{"/main.tpl": "{% macro r(n) %}{{ n }}{{ r(n + 1) }}{% endmacro %}{{ r(1) }}"}
+	}, nil},
 	{"macro-recursion-mutual", func() map[string]string {
 		return map[string]string{"/main.tpl": "{% macro a(n) %}{{ b(n) }}{% endmacro %}{% macro b(n) %}{{ a(n + 1) }}{% endmacro %}{{ a(1) }}"}
 	}, nil},
@@ -442,7 +458,9 @@ var c01Resource = []c01Res{
 	{"macro-recursion-imported-alias", func() map[string]string {
 		return map[string]string{"/main.tpl": "{% import \"/lib.tpl\" r as q, s %}{{ q(1) }}", "/lib.tpl": "{% macro r(n) export %}{{ s(n) }}{% endmacro %}{% macro s(n) export %}{{ r(n) }}{% endmacro %}"}
 	}, nil},
-	{"macro-recursion-default", func() map[string]string { return map[string]string{"/main.tpl": "{% macro a(x=a()) %}x{% endmacro %}{{ a() }}"} }, nil},
+	{"macro-recursion-default", func() map[string]string {
+		return map[string]string{"/main.tpl": "{% macro a(x=a()) %}x{% endmacro %}{{ a() }}"}
+	}, nil},
 	{"macro-recursion-default-mutual", func() map[string]string {
 		return map[string]string{"/main.tpl": "{% macro a(y=b()) %}x{% endmacro %}{% macro b(y=a()) %}x{% endmacro %}{{ a() }}"}
 	}, nil},
@@ -491,7 +509,9 @@ var c01Resource = []c01Res{
 		files["/main.tpl"] = "{% extends \"/t300.tpl\" %}"
 		return files
 	}, nil},
-	{"big-lorem", func() map[string]string { return map[string]string{"/main.tpl": "{% lorem 100001 w %}{% lorem 99999999999 p %}"} }, nil},
+	{"big-lorem", func() map[string]string {
+		return map[string]string{"/main.tpl": "{% lorem 100001 w %}{% lorem 99999999999 p %}"}
+	}, nil},
 	{"big-padding", func() map[string]string {
 		return map[string]string{"/main.tpl": "{{ \"x\"|center:99999999 }}{{ \"x\"|ljust:99999999 }}{{ \"x\"|rjust:99999999 }}{{ 1.5|floatformat:99999999 }}{{ \"x\"|rjust:-99999999 }}{{ \"x\"|center:-5 }}"}
 	}, nil},
@@ -503,8 +523,12 @@ var c01Resource = []c01Res{
 		}
 		return map[string]string{"/main.tpl": sb.String()}
 	}, nil},
-	{"long-string-literal", func() map[string]string { return map[string]string{"/main.tpl": "{{ \"" + rep("ab\\\\\\\"", 50000) + "\" }}"} }, nil},
-	{"long-comment-runs", func() map[string]string { return map[string]string{"/main.tpl": rep("{# c #}", 50000) + rep("{% comment %}x{% endcomment %}", 5000)} }, nil},
+	{"long-string-literal", func() map[string]string {
+		return map[string]string{"/main.tpl": "{{ \"" + rep("ab\\\\\\\"", 50000) + "\" }}"}
+	}, nil},
+	{"long-comment-runs", func() map[string]string {
+		return map[string]string{"/main.tpl": rep("{# c #}", 50000) + rep("{% comment %}x{% endcomment %}", 5000)}
+	}, nil},
 }
 
 func c01ResourceCase(c *C, i int) {
